@@ -90,6 +90,10 @@ class VipAdapter:
         self.dbdir = os.path.realpath(self.dbdir)
         n_own = rng.randint(3, 7)
         self.owners = ['proid.app%d-%010d-%s' % (i % 3, i, 'UNIQ%09d' % rng.randrange(10 ** 9)) for i in range(n_own)]
+        if rng.random() < 0.35:
+            # owner names that are a proper suffix / prefix of one another (ops.db-... vs devops.db-...)
+            self.owners[1] = 'dev' + self.owners[0]
+            self.owners[2] = self.owners[0][:-1]
         self.names = list(self.hosts) + self.other_hosts
         self.foreign = {}
         if rng.random() < 0.3:
@@ -141,6 +145,10 @@ class RuleAdapter:
         self.dbdir = os.path.realpath(self.dbdir)
         n_own = rng.randint(3, 7)
         self.owners = ['proid.app%d-%010d-%s' % (i % 3, i, 'UNIQ%09d' % rng.randrange(10 ** 9)) for i in range(n_own)]
+        if rng.random() < 0.35:
+            # owner names that are a proper suffix / prefix of one another (ops.db-... vs devops.db-...)
+            self.owners[1] = 'dev' + self.owners[0]
+            self.owners[2] = self.owners[0][:-1]
         ext = '172.31.81.67'
         vips = ['192.168.0.%d' % rng.randint(2, 6) for _ in range(2)]
         self.rules = {}
